@@ -504,7 +504,12 @@ func (c *Ctx) leafPedigree(u *FuncUnit, fs *FactSet, arg ast.Expr) string {
 			return false
 		}
 		f := c.m.staticCallee(call)
-		return f != nil && (f.Name() == "minimum" || f.Name() == "maximum") && f.Pkg() == c.m.Pkg
+		if f != nil && (f.Name() == "minimum" || f.Name() == "maximum") && f.Pkg() == c.m.Pkg {
+			return true
+		}
+		// any library function whose every non-nil result is the pointer of a reference known to
+		// be a leaf (a shared search helper)
+		return c.leafReturning(c.m.calleeUnit(call))
 	}
 	if isMinMax(arg) {
 		return "result of minimum/maximum: every non-nil return of theirs is under the leaf tag fact"
@@ -678,4 +683,57 @@ func (c *Ctx) pointeeKindDepth(u *FuncUnit, ptr ast.Expr, depth int) int64 {
 		}
 	}
 	return -1
+}
+
+
+// leafReturning: u returns an unsafe.Pointer that, whenever it is not nil, is X.pointer of a
+// reference X known to be a leaf at that return.
+func (c *Ctx) leafReturning(u *FuncUnit) bool {
+	if u == nil || u.Body == nil || u.Lit != nil || u.Obj == nil {
+		return false
+	}
+	if c.lrMemo == nil {
+		c.lrMemo = map[*FuncUnit]int{}
+	}
+	switch c.lrMemo[u] {
+	case 1:
+		return true
+	case 2, 3:
+		return false
+	}
+	c.lrMemo[u] = 3
+	sig, _ := u.Obj.Type().(*types.Signature)
+	if sig == nil || sig.Results().Len() != 1 || !isUnsafePointer(sig.Results().At(0).Type()) {
+		c.lrMemo[u] = 2
+		return false
+	}
+	info := c.m.Info
+	leafV := c.m.LeafKind.Value
+	ok, any := true, false
+	c.e.flow(u).walk(func(n ast.Node, fs *FactSet, stmt ast.Node, b *cfg.Block) {
+		rs, isRet := n.(*ast.ReturnStmt)
+		if !isRet || len(rs.Results) != 1 {
+			return
+		}
+		if info.Types[rs.Results[0]].IsNil() {
+			return
+		}
+		any = true
+		sel, isSel := ast.Unparen(rs.Results[0]).(*ast.SelectorExpr)
+		if !isSel || sel.Sel.Name != "pointer" {
+			ok = false
+			return
+		}
+		if known, _ := fs.tagOf(sel.X); known == nil || *known != leafV {
+			if !c.leafByElimination(fs, sel.X) {
+				ok = false
+			}
+		}
+	})
+	if ok && any {
+		c.lrMemo[u] = 1
+		return true
+	}
+	c.lrMemo[u] = 2
+	return false
 }
